@@ -334,6 +334,15 @@ def run_proxavg(ctx, model, scico):
             alphas = [1.0 / n] * n if n in (1, 2, 4) else alphas  # already sums to one: must be kept as given
         noinf = bool(rng.integers(2))
         x = G.dy(rng, (int(rng.integers(1, 5)),), False)
+        if rng.random() < 0.5:
+            # an indicator that is infinite at x, not in the last position, non-uniform weights
+            n = int(rng.integers(2, 5))
+            leaves = [G.gen_leaf(rng, False, ["l1", "sql2", "l2", "hubers"]) for _ in range(n)]
+            leaves[int(rng.integers(0, n - 1))] = {"kind": "nonneg"}
+            objs = [G.build_leaf(F, d) for d in leaves]
+            alphas = [float(k + 1) / 4 for k in rng.permutation(n)]
+            x = -np.abs(x) - 0.25
+            noinf = bool(rng.random() < 0.8)
         ok_ctor = all(o.has_prox for o in objs)
         built = _impl(lambda: F.ProximalAverage(objs, alpha_list=alphas, no_inf_eval=noinf))
         case = {"leaves": leaves, "alphas": alphas, "noinf": noinf, "x": fs2b(x)}
